@@ -185,6 +185,90 @@ func runC07(c *Ctx) {
 			c.count("several_results_objects")
 		}
 	}
+	// claims that ARRIVE AS TOKENS, one after another: the times Validate judges are the times the token at hand carries -
+	// a token without expiry decoded right after an expired one (same kind, same layout) has no time issue, and the other
+	// way round; version-1 and version-2 layouts, every kind both encoders write
+	{
+		kr := g.kr
+		mk := func(kind, layout string, exp, nbf int64) string {
+			var tok string
+			var err error
+			switch kind + "/" + layout {
+			case "activation/v1":
+				x := v1.NewActivationClaims(kr.by["account"].pub)
+				x.ImportSubject, x.ImportType, x.Expires, x.NotBefore = "a.b", v1.Stream, exp, nbf
+				tok, err = x.Encode(kr.by["account"].kp)
+			case "activation/v2":
+				x := jwt.NewActivationClaims(kr.by["account"].pub)
+				x.ImportSubject, x.ImportType, x.Expires, x.NotBefore = "a.b", jwt.Stream, exp, nbf
+				tok, err = x.Encode(kr.by["account"].kp)
+			case "user/v1":
+				x := v1.NewUserClaims(kr.by["user"].pub)
+				x.Expires, x.NotBefore = exp, nbf
+				tok, err = x.Encode(kr.by["account"].kp)
+			case "user/v2":
+				x := jwt.NewUserClaims(kr.by["user"].pub)
+				x.Expires, x.NotBefore = exp, nbf
+				tok, err = x.Encode(kr.by["account"].kp)
+			case "account/v1":
+				x := v1.NewAccountClaims(kr.by["account"].pub)
+				x.Expires, x.NotBefore = exp, nbf
+				tok, err = x.Encode(kr.by["operator"].kp)
+			case "account/v2":
+				x := jwt.NewAccountClaims(kr.by["account"].pub)
+				x.Expires, x.NotBefore = exp, nbf
+				tok, err = x.Encode(kr.by["operator"].kp)
+			case "operator/v1":
+				x := v1.NewOperatorClaims(kr.by["operator"].pub)
+				x.Expires, x.NotBefore = exp, nbf
+				tok, err = x.Encode(kr.by["operator"].kp)
+			case "operator/v2":
+				x := jwt.NewOperatorClaims(kr.by["operator"].pub)
+				x.Expires, x.NotBefore = exp, nbf
+				tok, err = x.Encode(kr.by["operator"].kp)
+			}
+			if err != nil {
+				panic(err)
+			}
+			return tok
+		}
+		for _, kind := range []string{"activation", "user", "account", "operator"} {
+			for _, layout := range []string{"v1", "v2"} {
+				timed := []string{mk(kind, layout, now-5000, 0), mk(kind, layout, 0, now+5000), mk(kind, layout, now-5000, now+5000)}
+				plain := mk(kind, layout, 0, 0)
+				wants := []int{1, 1, 2}
+				for rep := 0; rep < 12; rep++ {
+					ti := rep % 3
+					for step, tok := range []string{timed[ti], plain, plain, timed[ti]} {
+						want := 0
+						if step == 0 || step == 3 {
+							want = wants[ti]
+						}
+						cl, err := jwt.Decode(tok)
+						c.sum.Evaluations++
+						c.sum.ImplChecks++
+						if err != nil {
+							c.violation("C07: a token the library encoded does not decode", map[string]interface{}{"kind": kind, "layout": layout, "error": err.Error()})
+							continue
+						}
+						vr := jwt.CreateValidationResults()
+						cl.Validate(vr)
+						n := 0
+						for _, is := range vr.Issues {
+							if is.TimeCheck {
+								n++
+							}
+						}
+						if n != want {
+							c.violation("C07: a claim decoded from a token has other time-check issues than the token's own times give (it was decoded right after a token with other times)",
+								map[string]interface{}{"kind": kind, "layout": layout, "step": step, "time_issues": n, "expected": want, "exp": cl.Claims().Expires, "nbf": cl.Claims().NotBefore, "token": tok})
+						}
+						c.count("decoded_in_sequence")
+					}
+				}
+			}
+		}
+	}
 	// a results object that is already CROWDED - it holds many warnings (a long list of imports using a deprecated
 	// field was validated into it), or the claim itself raises many errors next to its time issues (130 exports of no
 	// kind): however many issues there are, the time-check issues are all there and IsBlocking(true) shows them
@@ -350,6 +434,8 @@ func runC07(c *Ctx) {
 	c.sum.Rule = "7 kinds x the 9x9 grid of (expiry, not-before) over {min-int64, -1, 0, 1, now-1e9, now-3, now+3, now+1e9, max-int64} (complete) plus random pairs, on clean claims of each kind (and, on a 3x3 grid, on claims that also hold a blocking violation and on rejection responses), skipping values within 2 seconds of the observed clock second; observed: number of issues with TimeCheck set, IsBlocking(false), IsBlocking(true); non-trivial = distinct (kind, exp set, nbf set, count)"
 }
 
+var noKindTurn int
+
 func runC10(c *Ctx) {
 	w := c.newCaseWriter("imp", vcaseRequires, "vcase", "vcase_ok")
 	g := &cleanGen{rng: c.Rng, kr: newKeyring()}
@@ -394,6 +480,10 @@ func runC10(c *Ctx) {
 					tokKind := kind
 					if !ok[3] {
 						tokKind = 3 - kind
+						noKindTurn++
+						if noKindTurn%2 == 0 {
+							tokKind = 0 // the token names no kind at all (the member is left out): it grants neither kind
+						}
 					}
 					addressee := importer.pub
 					if !ok[2] {
